@@ -548,7 +548,7 @@ pub fn run_scenario(sc: &Scenario, use_baton: bool) -> ScenarioResult {
         violation = std::thread::scope(|s| s.spawn(|| repeat_phase(sh, &jobs, &reference)).join().unwrap_or(None));
     }
     // one scenario in 6 / in 12 (by its baton seed; thread creation is the cost): pool workers over handle generations, iterator hand-off
-    if violation.is_none() && sc.baton_seed % 6 == 0 {
+    if violation.is_none() && sc.baton_seed % 4 == 0 {
         violation = guarded(|| generation_phase(inputs)).unwrap_or(None);
     }
     if violation.is_none() && sc.baton_seed % 12 == 1 {
@@ -684,11 +684,27 @@ fn generation_phase(inputs: &Inputs) -> Option<(String, String)> {
                         let a: Vec<String> = match &h {
                             Some(h) => {
                                 let sh = h.get();
-                                // worker 1 asks in reverse order
-                                let idx: Vec<usize> = if w == 0 { (0..probes.len()).collect() } else { (0..probes.len()).rev().collect() };
+                                // worker 1 asks in reverse order; every worker begins and ends each generation
+                                // with the same cache lookup ("its" class), so that the first lookup in the next
+                                // generation repeats the name of the last lookup in the previous one
+                                let mine = (0..probes.len()).filter(|i| matches!(probes[*i].q, Query::Class(_)) && probes[*i].target == Target::Cache).nth(w).unwrap_or(0);
+                                let mut idx: Vec<usize> = if w == 0 { (0..probes.len()).collect() } else { (0..probes.len()).rev().collect() };
+                                idx.insert(0, mine);
+                                idx.push(mine);
                                 let mut a = vec![String::new(); probes.len()];
+                                let mut bad: Option<String> = None;
                                 for i in idx {
-                                    a[i] = guarded_answer(sh, &probes[i], &mut || false);
+                                    let got = guarded_answer(sh, &probes[i], &mut || false);
+                                    if !a[i].is_empty() && a[i] != got {
+                                        if bad.is_none() {
+                                            bad = Some(format!("INCONSISTENT within one generation: first {:?}, later {:?}", a[i], got));
+                                        }
+                                        continue; // keep the first answer
+                                    }
+                                    a[i] = got;
+                                }
+                                if let Some(b) = bad {
+                                    a[mine] = b;
                                 }
                                 a
                             }
